@@ -149,12 +149,16 @@ func runTwins(t *testing.T, prop, part string, pairs []twinPair, check func(tb T
 		if ct.Failed() {
 			break
 		}
+		preludeStart() // a failure's replay file carries the calls that preceded it in this pair
 		ct.guard(func() {
 			for _, c := range [][]byte{p.A, p.B, p.A} {
 				check(ct, c, i)
 				st.Eval()
 			}
 		})
+		if !ct.Failed() {
+			preludeStop()
+		}
 		st.NonTrivial(H("twin", p.Hash, p.A, p.B))
 		st.Class("pair of contents with equal " + p.Hash)
 	}
@@ -170,7 +174,20 @@ func runTwins(t *testing.T, prop, part string, pairs []twinPair, check func(tb T
 func TestC01Twins(t *testing.T) {
 	pairs := append(hashTwins("", qrAlnumSet, "", 18, 2), hashTwins("", "0123456789", "", 24, 2)...)
 	pairs = append(pairs, hashTwins("", printable, "", 14, 2)...)
+	// twins of the codeword streams of single-block versions (the stream IS the Reed-Solomon block): a memo of check
+	// words keyed by a digest of the block is collided by these only
+	streamVL := map[string][2]int{}
+	for _, vl := range [][2]int{{1, 0}, {2, 1}, {1, 3}, {3, 0}, {4, 0}} {
+		for _, p := range qrStreamTwins(vl[0], vl[1], 1) {
+			streamVL[string(p.A)], streamVL[string(p.B)] = vl, vl
+			pairs = append(pairs, p)
+		}
+	}
 	runTwins(t, "C01", "hash-twins", pairs, func(tb TB, c []byte, v int) {
+		if vl, ok := streamVL[string(c)]; ok {
+			checkQRRoundTrip(tb, QRCase{Content: BStr(c), Level: vl[1], Mode: 3})
+			return
+		}
 		checkQRRoundTrip(tb, QRCase{Content: BStr(c), Level: v % 4, Mode: 0})
 		mode := 3
 		if qrInAlphabet(1, c) {
